@@ -405,13 +405,25 @@ def inlineRecurse (render : Render) (path : List PKey) (base : List J) (b : B) :
 def guardOk (strategy : Option String) (b : B) : Bool :=
   truthy strategy && strategy != some "mergetool" && hasConflicted b
 
+/-- `strategy.startswith("use-")` -/
+def isUse (s : String) : Bool :=
+  match s.toList with
+  | 'u' :: 's' :: 'e' :: '-' :: _ => true
+  | _ => false
+
+/-- `strategy.replace("use-", "")` on characters: every non-overlapping occurrence, left to right -/
+def dropUse : List Char → List Char
+  | 'u' :: 's' :: 'e' :: '-' :: rest => dropUse rest
+  | c :: rest => c :: dropUse rest
+  | [] => []
+
 /-- `resolve_strategy_generic` -/
 def resolveGeneric (b : B) (strategy : Option String) : B :=
   if !guardOk strategy b then b
   else
     let s := strategy.getD ""
-    if s.startsWith "use-" then
-      let action := s.replace "use-" ""
+    if isUse s then
+      let action := String.ofList (dropUse s.toList)
       b.map (fun d => if d.conflict && !truthy d.strategy then { d with action := action, conflict := false } else d)
     else b
 
